@@ -239,6 +239,9 @@ def main(argv=None) -> int:
     pid = args.prop.upper()
 
     use_repo()
+    import logging
+
+    logging.disable(logging.CRITICAL)  # the library logs every swallowed observer/cache fault with a traceback
     mod = load_prop(pid)
     if args.scale != 1:
         mod.BUDGET = {k: max(1, int(v * args.scale)) for k, v in mod.BUDGET.items()}
